@@ -203,12 +203,22 @@ class Gen:
         else:
             rules.append({"head": ("r", [V("X"), V("Y")]), "body": [("pos", e, [V("X"), V("Y")])]})
             rules.append({"head": ("r", [V("X"), V("Y")]), "body": [("pos", "b" if e != "b" else "a", [V("X"), V("Y")])]})
-        rk = rng.choice(["right", "right", "left", "nonlinear", "other_edge", "filter", "neg"])
+        rk = rng.choice(["right", "left", "nonlinear", "other_edge", "filter", "neg", "perm", "perm", "perm"])
         e2 = e
         if rk == "other_edge":
             e2 = rng.choice([x for x in ["a", "b", "e"] if x != e])
         if rk in ("right", "other_edge"):
             rules.append({"head": ("r", [V("X"), V("Z")]), "body": [("pos", e2, [V("X"), V("Y")]), ("pos", "r", [V("Y"), V("Z")])]})
+        elif rk == "perm":
+            # every way of joining one edge atom with the recursive atom on one shared variable:
+            # join column of e, join column of r, atom order, head order (the plain closure is one of 16)
+            eargs = [V("X"), V("Y")] if rng.random() < 0.5 else [V("Y"), V("X")]
+            rargs = [V("Y"), V("Z")] if rng.random() < 0.5 else [V("Z"), V("Y")]
+            body = [("pos", e, eargs), ("pos", "r", rargs)]
+            if rng.random() < 0.5:
+                body.reverse()
+            head = [V("X"), V("Z")] if rng.random() < 0.6 else [V("Z"), V("X")]
+            rules.append({"head": ("r", head), "body": body})
         elif rk == "left":
             rules.append({"head": ("r", [V("X"), V("Z")]), "body": [("pos", "r", [V("X"), V("Y")]), ("pos", e, [V("Y"), V("Z")])]})
         elif rk == "nonlinear":
@@ -321,6 +331,73 @@ class Gen:
             q2 = mk("q")
             q2["head"] = ("q", [V(rng.choice(allv)) for _ in q["head"][1]])
             rules.append(q2)
+        return {"rules": rules, "query": "q"}
+
+    def prog_twins(self, feats):
+        """Two heads with identical bodies except for ONE detail (which variable is negated / compared, a constant,
+        a comparison operator, a join column, the head projection). Near-identical plans must not be merged or
+        confused by plan hashing/equality (subplan sharing, optimizer fixpoint, SIP naming)."""
+        rng = self.rng
+        (r1, a1) = rng.choice([("a", 2), ("b", 2), ("e", 2), ("d", 3)])
+        vs = VARS[:a1]
+        body = [("pos", r1, [V(v) for v in vs])]
+        allv = list(vs)
+        if rng.random() < 0.5:
+            (r2, a2) = rng.choice([("a", 2), ("b", 2), ("c", 1), ("e", 2)])
+            vs2 = [rng.choice(vs)] + VARS[a1:a1 + a2 - 1]
+            body.append(("pos", r2, [V(v) for v in vs2]))
+            allv = list(dict.fromkeys(vs + vs2))
+        x, y = rng.sample(allv, 2) if len(allv) > 1 else (allv[0], allv[0])
+        kind = rng.choice(["neg", "neg", "cmpvar", "cmpconst", "cmpop", "atomconst", "head", "negconst"])
+        nrel, nar = rng.choice([("c", 1), ("b", 2), ("a", 2)])
+        h1 = h2 = [V(x), V(y)]
+        d1 = d2 = []
+        if kind == "neg":
+            if nar == 1:
+                d1, d2 = [("neg", nrel, [V(x)])], [("neg", nrel, [V(y)])]
+            else:
+                d1, d2 = [("neg", nrel, [V(x), V(y)])], [("neg", nrel, [V(y), V(x)])]
+        elif kind == "negconst":
+            if nar == 1:
+                d1, d2 = [("neg", nrel, [V(x)]), ("cmp", V(y), ">", C(0))], [("neg", nrel, [V(x)]), ("cmp", V(y), ">", C(1))]
+            else:
+                d1, d2 = [("neg", nrel, [V(x), C(1)])], [("neg", nrel, [V(x), C(2)])]
+        elif kind == "cmpvar":
+            op = rng.choice(CMP)
+            d1, d2 = [("cmp", V(x), op, C(1))], [("cmp", V(y), op, C(1))]
+        elif kind == "cmpconst":
+            op = rng.choice(CMP)
+            d1, d2 = [("cmp", V(x), op, C(1))], [("cmp", V(x), op, C(2))]
+        elif kind == "cmpop":
+            d1, d2 = [("cmp", V(x), "<", V(y))], [("cmp", V(x), "<=", V(y))]
+        elif kind == "atomconst":
+            b1 = [(l[0], l[1], list(l[2])) for l in body]
+            b2 = [(l[0], l[1], list(l[2])) for l in body]
+            b1[-1][2][-1] = C(1)
+            b2[-1][2][-1] = C(2)
+            gone = body[-1][2][-1][1]
+            keep = [v for v in allv if v != gone] or allv
+            hx = [V(rng.choice(keep)), V(rng.choice(keep))]
+            rules = [{"head": ("t1", hx), "body": b1}, {"head": ("t2", hx), "body": b2}]
+            return self._twins_query(rules)
+        else:
+            h1, h2 = [V(x), V(y)], [V(y), V(x)]
+        rules = [{"head": ("t1", h1), "body": body + d1}, {"head": ("t2", h2), "body": body + d2}]
+        return self._twins_query(rules)
+
+    def _twins_query(self, rules):
+        rng = self.rng
+        qk = rng.choice(["minus", "minus2", "product", "union"])
+        if qk == "minus":
+            rules.append({"head": ("q", [V("X"), V("Y")]), "body": [("pos", "t1", [V("X"), V("Y")]), ("neg", "t2", [V("X"), V("Y")])]})
+        elif qk == "minus2":
+            rules.append({"head": ("q", [V("X"), V("Y")]), "body": [("pos", "t2", [V("X"), V("Y")]), ("neg", "t1", [V("X"), V("Y")])]})
+        elif qk == "product":
+            rules.append({"head": ("q", [V("X"), V("Y"), V("Z"), V("W")]),
+                          "body": [("pos", "t1", [V("X"), V("Y")]), ("pos", "t2", [V("Z"), V("W")])]})
+        else:
+            rules.append({"head": ("q", [V("X"), V("Y"), C(1)]), "body": [("pos", "t1", [V("X"), V("Y")])]})
+            rules.append({"head": ("q", [V("X"), V("Y"), C(2)]), "body": [("pos", "t2", [V("X"), V("Y")])]})
         return {"rules": rules, "query": "q"}
 
     def program(self, kind=None, feats=("neg", "arith")):
@@ -459,3 +536,94 @@ class PlanGen:
         g = sorted(rng.sample(range(w), rng.choice([0, 1, 1]) if w > 1 else 0))
         f = rng.choice(["Count", "Sum", "Min", "Max", "CountDistinct"])
         return {"op": "Aggregate", "input": t, "group_by": g, "aggs": [[f, rng.randrange(w)]], "w": len(g) + 1}, len(g) + 1
+
+
+def rec_templates():
+    """Fixed family: one edge relation, every way of writing the base clause and the two-atom recursive clause
+    (join column of the edge atom, join column of the recursive atom, atom order, head order), query = whole relation.
+    Targets the recursion strategy detectors (transitive-closure fast paths) and base/recursive splitting."""
+    out = []
+    bases = [
+        [{"head": ("r", [V("X"), V("Y")]), "body": [("pos", "e", [V("X"), V("Y")])]}],
+        [{"head": ("r", [V("X"), V("Y")]), "body": [("pos", "e", [V("Y"), V("X")])]}],
+        [{"head": ("r", [V("X"), V("Y")]), "body": [("pos", "d", [V("X"), V("Y"), ("wild",)])]}],
+    ]
+    for bi, base in enumerate(bases):
+        for eflip in (False, True):
+            for rflip in (False, True):
+                for order in (False, True):
+                    for hflip in (False, True):
+                        if bi > 0 and (order or hflip):
+                            continue
+                        erel = "e" if bi < 2 else "d"
+                        eargs = [V("Y"), V("X")] if eflip else [V("X"), V("Y")]
+                        if erel == "d":
+                            eargs = eargs + [("wild",)]
+                        rargs = [V("Z"), V("Y")] if rflip else [V("Y"), V("Z")]
+                        body = [("pos", erel, eargs), ("pos", "r", rargs)]
+                        if order:
+                            body.reverse()
+                        head = [V("Z"), V("X")] if hflip else [V("X"), V("Z")]
+                        rules = [dict(r) for r in base] + [{"head": ("r", head), "body": body},
+                                                           {"head": ("q", [V("X"), V("Y")]), "body": [("pos", "r", [V("X"), V("Y")])]}]
+                        out.append({"rules": rules, "query": "q"})
+    return out
+
+
+def partition_templates():
+    """Fixed family of join-free single-clause programs: every aggregate function, projections that create
+    duplicates, computed columns, filters, unions - the plans execute_with_config may hash-partition."""
+    out = []
+    for f in ("count", "sum", "min", "max", "count_distinct"):
+        out.append({"rules": [{"head": ("q", [V("X"), ("agg", f, "Y")]), "body": [("pos", "a", [V("X"), V("Y")])]}], "query": "q"})
+        out.append({"rules": [{"head": ("q", [("agg", f, "Y")]), "body": [("pos", "d", [V("X"), V("Y"), ("wild",)]), ("cmp", V("X"), ">=", C(0))]}], "query": "q"})
+        out.append({"rules": [{"head": ("g", [V("X"), ("agg", f, "Y")]), "body": [("pos", "a", [V("X"), V("Y")])]},
+                              {"head": ("q", [V("X"), V("V")]), "body": [("pos", "g", [V("X"), V("V")]), ("cmp", V("V"), ">", C(0))]}], "query": "q"})
+    out.append({"rules": [{"head": ("q", [V("X")]), "body": [("pos", "a", [V("X"), ("wild",)])]}], "query": "q"})
+    out.append({"rules": [{"head": ("q", [V("X"), V("Z")]), "body": [("pos", "a", [V("X"), V("Y")]), ("let", "Z", ("bin", "+", V("Y"), C(1)))]}], "query": "q"})
+    out.append({"rules": [{"head": ("q", [V("X"), V("Y")]), "body": [("pos", "a", [V("X"), V("Y")])]},
+                          {"head": ("q", [V("X"), V("Y")]), "body": [("pos", "b", [V("Y"), V("X")]), ("cmp", V("X"), "<", V("Y"))]}], "query": "q"})
+    out.append({"rules": [{"head": ("q", [V("X"), V("Y")]), "body": [("pos", "a", [V("X"), V("Y")]), ("neg", "c", [V("X")])]}], "query": "q"})
+    return out
+
+
+def agg_templates():
+    """Fixed family for C06: every simple aggregate over bodies with anonymous variables, joins that multiply
+    bindings, filters and negation."""
+    out = []
+    for f in ("count", "sum", "min", "max", "count_distinct"):
+        A = ("agg", f, "V")
+        out.append({"rules": [{"head": ("q", [V("G"), A]), "body": [("pos", "d", [V("G"), V("V"), ("wild",)])]}], "query": "q"})
+        out.append({"rules": [{"head": ("q", [V("G"), A]), "body": [("pos", "d", [("wild",), V("G"), V("V")]), ("pos", "c", [V("G")])]}], "query": "q"})
+        out.append({"rules": [{"head": ("q", [V("G"), A]), "body": [("pos", "a", [V("G"), V("V")]), ("pos", "b", [V("G"), ("wild",)])]}], "query": "q"})
+        out.append({"rules": [{"head": ("q", [A]), "body": [("pos", "a", [("wild",), V("V")])]}], "query": "q"})
+        out.append({"rules": [{"head": ("q", [V("G"), A]), "body": [("pos", "a", [V("G"), V("V")]), ("neg", "c", [V("V")])]}], "query": "q"})
+        out.append({"rules": [{"head": ("q", [V("G"), A]), "body": [("pos", "a", [V("G"), V("K")]), ("pos", "b", [V("K"), V("V")]), ("cmp", V("V"), ">", C(0))]}], "query": "q"})
+    return out
+
+
+def order_templates():
+    """Fixed family for C04: small programs whose query head has several clauses and depends on views; every clause
+    order (query clause last) is compared by the check."""
+    X, Y = V("X"), V("Y")
+    out = []
+    out.append({"rules": [{"head": ("v", [X]), "body": [("pos", "b", [X, ("wild",)])]},
+                          {"head": ("q", [X]), "body": [("pos", "a", [X, ("wild",)])]},
+                          {"head": ("q", [X]), "body": [("pos", "v", [X])]}], "query": "q"})
+    out.append({"rules": [{"head": ("v", [X, Y]), "body": [("pos", "a", [X, Y]), ("cmp", X, "<", Y)]},
+                          {"head": ("q", [X, Y]), "body": [("pos", "b", [X, Y])]},
+                          {"head": ("q", [Y, X]), "body": [("pos", "v", [X, Y]), ("neg", "c", [X])]}], "query": "q"})
+    out.append({"rules": [{"head": ("v", [X]), "body": [("pos", "c", [X])]},
+                          {"head": ("w", [X]), "body": [("pos", "v", [X]), ("pos", "a", [X, ("wild",)])]},
+                          {"head": ("q", [X]), "body": [("pos", "w", [X])]}], "query": "q"})
+    out.append({"rules": [{"head": ("v", [X]), "body": [("pos", "c", [X])]},
+                          {"head": ("v", [X]), "body": [("pos", "a", [X, ("wild",)])]},
+                          {"head": ("q", [X, Y]), "body": [("pos", "v", [X]), ("pos", "b", [X, Y])]}], "query": "q"})
+    out.append({"rules": [{"head": ("v", [X, ("agg", "count", "Y")]), "body": [("pos", "a", [X, Y])]},
+                          {"head": ("q", [X]), "body": [("pos", "c", [X])]},
+                          {"head": ("q", [X]), "body": [("pos", "v", [X, Y]), ("cmp", Y, ">", C(1))]}], "query": "q"})
+    out.append({"rules": [{"head": ("r", [X, Y]), "body": [("pos", "e", [X, Y])]},
+                          {"head": ("q", [X]), "body": [("pos", "c", [X])]},
+                          {"head": ("r", [X, V("Z")]), "body": [("pos", "e", [X, Y]), ("pos", "r", [Y, V("Z")])]},
+                          {"head": ("q", [Y]), "body": [("pos", "r", [C(1), Y])]}], "query": "q"})
+    return out
